@@ -392,7 +392,7 @@ class EnvSim(Engine):
         except BuildError:
             raise
         except Exception as ex:
-            ctx.probe("discarded-unbuildable-world:" + type(ex).__name__)
+            ctx.probe("discarded-unbuildable-world:" + type(ex).__name__ + ":" + str(ex)[:70])
             return False
         shim = ChoiceShim(target)
         ee_mod.random = shim
